@@ -137,6 +137,27 @@ def load_known(pid):
     return [e for e in data.get("findings", []) if e.get("property") == pid and e.get("status") == "open"]
 
 
+def run_tmp():
+    """Scratch directory of this check run (memory-backed where possible).  Created by the main process before it forks
+    its workers, inherited through the environment, removed by the command line wrapper when the run ends."""
+    import tempfile
+
+    d = os.environ.get("RTMC_RUN_TMP")
+    if not d or not os.path.isdir(d):
+        base = "/dev/shm" if os.path.isdir("/dev/shm") and os.access("/dev/shm", os.W_OK) else None
+        d = tempfile.mkdtemp(prefix="rtmc-run-", dir=base)
+        os.environ["RTMC_RUN_TMP"] = d
+    return d
+
+
+def remove_run_tmp():
+    import shutil
+
+    d = os.environ.pop("RTMC_RUN_TMP", None)
+    if d and os.path.basename(d).startswith("rtmc-run-"):
+        shutil.rmtree(d, ignore_errors=True)
+
+
 def case_signature(clause, case):
     return hashlib.sha1((clause + "|" + jdump(case)).encode()).hexdigest()[:16]
 
